@@ -35,6 +35,13 @@ def run(ctx, rep):
         # "no operation fails merely because of the others": a slot that another task still holds (or that was
         # freed) must not shadow a live request when the shared 8-bit index wraps (C01 clause 4 re-checked)
         slotfsm.s8(prog, rep, "C20", slotfsm.transitions(prog)[0], tag)
+        # "... as long as fewer frames are in flight than the storage holds": a slot stranded without an owner by the
+        # transmit side (a state written unconditionally after the request was given up by another task) is capacity
+        # lost to every task; and the slot state machine as a whole stays the audited one
+        from . import c03
+
+        sites_ = slotfsm.s1(prog, rep, "C20", tag)
+        c03.tx_lets_go(prog, rep, sites_ if sites_ is not None else slotfsm.transitions(prog)[0], tag, P0="C20")
         one_slot_per_transfer(prog, rep, tag)
         index_reuse(prog, rep, tag)
 
